@@ -244,7 +244,7 @@ def c03_pairs(max_mismatch=0.05):
 def c03_cells():
     cells = []
     for A, B, f in c03_pairs():
-        for la, lb in ((3, 3), (4, 3), (3, 5), (5, 4)):
+        for la, lb in ((3, 3), (4, 3), (3, 5)):
             for nlat in (4, 5):
                 for pbc_z in (True, False):
                     for noise in (0.0, 0.03):
